@@ -46,6 +46,7 @@ WIDTH = {n: len(fs) for n, fs in SCHEMA_SPEC}
 COLIDX = {n: {f: i for i, (f, _, _) in enumerate(fs)} for n, fs in SCHEMA_SPEC}
 # what FieldMapper declares as invalidated by processing, restricted to this schema
 AFFECTED = ["parse", "result", "run", "edge"]
+DEFAULT_SELECTOR = ("item", "i-input")              # itsdb._default_task_selectors["parse"]
 PARSE_KEYS = ["readings", "total", "error"]          # FieldMapper._parse_keys ∩ parse fields
 RESULT_KEYS = ["result-id", "derivation", "mrs"]     # FieldMapper._result_keys ∩ result fields
 RUN_KEYS = ["run-comment", "platform", "end"]        # FieldMapper._run_keys ∩ run fields
@@ -75,6 +76,8 @@ def py_val(v):
         return uncps(v["str"])
     if "date" in v:
         return datetime.datetime(*v["date"])
+    if "sexp" in v:
+        return json.loads(json.dumps(v["sexp"]))      # a (nested) list of integers / strings
     raise ValueError(v)
 
 
@@ -104,6 +107,15 @@ def norm_cell(dt, v):
 
 def ckey(v):
     return json.dumps(v, sort_keys=True)
+
+
+def sexp_cell(v):
+    """naive re-statement of `util.SExpr.format(x) if x else None` for (nested) lists of integers and symbols"""
+    def fmt(x):
+        return "(" + " ".join(fmt(y) for y in x) + ")" if isinstance(x, list) else str(x)
+    if v is None or not v.get("sexp"):
+        return None
+    return {"str": cps(fmt(v["sexp"]))}
 
 
 def norm_row(name, row):
@@ -214,6 +226,8 @@ class Spec:
             return None
         if k == "foreign":
             return None          # another TestSuite object edits ITS copy of the rows: nothing changes here
+        if k == "nosuch":
+            return "ITSDBError"  # ts[<a name that is not in the schema>]: nothing changes
         if k == "alias":
             # rows are values: reading them from a table and storing them elsewhere copies them
             src = self.cur[st["src"]]
@@ -245,12 +259,16 @@ class Spec:
         last_run = -1
         script = st["script"]
         calls = []
-        for pos, item in enumerate(self.cur["item"]):
+        tb, col = st.get("sel") or DEFAULT_SELECTOR
+        keyf = [(j, f) for j, (f, _, fl) in enumerate(dict(SCHEMA_SPEC)[tb]) if ":key" in fl]
+        # the affected relations are cleared before the inputs are read
+        items = [] if tb in AFFECTED else self.cur[tb]
+        for pos, item in enumerate(items):
             marks.append(len(out))
             resp = script[pos % len(script)]
-            i_id = int(json.loads(item[0])["int"])
-            inp = json.loads(item[1])
-            calls.append([inp, {"int": str(i_id)}])
+            keys = [[f, json.loads(item[j])] for j, f in keyf]
+            i_id = int(dict(keys)["i-id"]["int"]) if "i-id" in dict(keys) else -1
+            calls.append([json.loads(item[COLIDX[tb][col]]), keys])
             parse_id = max(parse_id + 1, i_id)
             run = resp.get("run")
             d = {"i-id": {"int": str(i_id)}, "parse-id": {"int": str(parse_id)},
@@ -264,7 +282,7 @@ class Spec:
                     d[key] = resp[key]
             out.append(("parse", [d.get(f) for f, _ in FIELDS["parse"]]))
             for res in resp.get("results", []):
-                d = {"parse-id": {"int": str(parse_id)}}
+                d = {"parse-id": {"int": str(parse_id)}}      # (flags is no field of this schema's result relation)
                 for key in RESULT_KEYS:
                     if key in res:
                         d[key] = res[key]
@@ -272,8 +290,8 @@ class Spec:
             for e in resp.get("chart", []):
                 d = dict(e)
                 d["parse-id"] = {"int": str(parse_id)}
-                d["e-daughters"] = None
-                d["e-alternates"] = None
+                d["e-daughters"] = sexp_cell(e.get("e-daughters"))
+                d["e-alternates"] = sexp_cell(e.get("e-alternates"))
                 out.append(("edge", [d.get(f) for f, _ in FIELDS["edge"]]))
             if run is not None:
                 rid = int(run["run-id"]["int"]) if "run-id" in run else -1
@@ -315,9 +333,14 @@ def simulate(case):
             for sub in st["ops"]:
                 spec.table_step(dict(sub, t=st["t"]))      # an operation that raises is skipped over there too
             spec.stored[st["t"]] = list(spec.cur[st["t"]])
+        elif k == "process" and st.get("sel") and (st["sel"][0] not in COLIDX or st["sel"][1] not in COLIDX[st["sel"][0]]):
+            # a selector that names no relation / no field of the relation: ITSDBError, nothing is touched
+            err = "ITSDBError"
+            info["badsel"] = True
         elif k == "process":
             err = None
-            nit = len(spec.cur["item"])
+            tb = (st.get("sel") or DEFAULT_SELECTOR)[0]
+            nit = 0 if tb in AFFECTED else len(spec.cur[tb])
             if any("results" not in st["script"][pos % len(st["script"])] for pos in range(nit)):
                 # TestSuite.process reads response['results'] itself: such a response is not a valid
                 # processor response; the run is aborted with KeyError and what it leaves is not specified
@@ -357,11 +380,11 @@ class ScriptedCPU(interface.Processor):
     def process_item(self, datum, keys=None):
         tmpl = self.script[self.n % len(self.script)]
         self.n += 1
-        self.calls.append([j_val(datum), j_val((keys or {}).get("i-id"))])
+        self.calls.append([j_val(datum), [[k, j_val(v)] for k, v in (keys or {}).items()]])
         resp = interface.Response(NOTES=[], WARNINGS=[], ERRORS=[], input=datum, keys=dict(keys or {}))
         if "results" in tmpl:
             resp["results"] = [{k: py_val(v) for k, v in r.items()} for r in tmpl["results"]]
-        for key in ("readings", "total", "error"):
+        for key in ("readings", "total", "error", "first"):
             if key in tmpl:
                 resp[key] = py_val(tmpl[key])
         if "run" in tmpl:
@@ -395,6 +418,38 @@ def iter_probes(t, n):
     if n <= 3:
         P["nested"] = guarded(lambda: [[trow(a), trow(b)] for a in t for b in t])
     return P
+
+
+def row_api(t, n):
+    """the Row objects a table hands out, through every access path of Row (last row of the table): by position,
+    by negative position, by field name, by slice, len, keys, equality with tuples/lists of its values"""
+    if n == 0:
+        return None
+    def probe():
+        r = t[-1]
+        names = [f.name for f in t.fields]
+        vals = list(r)
+        other = list(vals)
+        other[0] = (other[0] or 0) + 1 if not isinstance(other[0], str) else other[0] + "x"
+        return {"it": trow(vals), "idx": [j_val(r[j]) for j in range(len(names))],
+                "neg": [j_val(r[-j - 1]) for j in range(len(names))], "name": [j_val(r[nm]) for nm in names],
+                "sl": trow(r[1:]), "rev": trow(r[::-1]), "len": len(r), "keys": r.keys() == names,
+                "eq": bool(r == tuple(vals)) and bool(r == vals) and bool(r == t[len(t) - 1]),
+                "ne": bool(r == tuple(other)) or bool(r == vals[:-1]) or bool(r == vals + [None]) or bool(r == 5)
+                      or bool(r == None),                                               # noqa: E711
+                "str": cps(str(r)),
+                "cols": [t.column_index(nm) for nm in names] == list(range(len(names)))
+                        and [t.get_field(nm).name for nm in names] == names,
+                "updtype": _raises(TypeError, lambda: t.update(slice(0, 1), {})) and _raises(TypeError, lambda: t.update("0", {}))}
+    return guarded(probe)
+
+
+def _raises(exc, f):
+    try:
+        f()
+    except exc:
+        return True
+    return False
 
 
 def raw_lines(d, name, tx, gzp):
@@ -513,7 +568,20 @@ class Gen:
         if rng.random() < 0.1:
             pick.insert(rng.randrange(len(pick) + 1), "zz")
         qs.append({"t": name, "q": "select", "cols": pick})
+        # the same projection through the API wrappers: TestSuite.select_from, and cast=False (raw column text)
+        r = rng.random()
+        if r < 0.3:
+            qs.append({"t": name, "q": "selfrom", "cols": [rng.choice(cols) for _ in range(rng.randrange(0, 4))]})
+        elif r < 0.6:
+            qs.append({"t": name, "q": "selraw", "cols": [rng.choice(cols) for _ in range(rng.randrange(1, 4))]})
         return qs
+
+    def selector(self):
+        """process(selector=…): None = the task default; the default spelled out; another input relation (its keys
+        have no i-id); an input relation that processing itself clears; a relation / a column that does not exist"""
+        return self.rng.choice([None, None, None, None, ["item", "i-input"], ["item", "i-date"], ["note", "n-text"],
+                                ["memo", "n-id"], ["parse", "error"], ["result", "mrs"], ["nosuch", "i-input"],
+                                ["item", "n-text"], ["item", ""]])
 
     def script(self, malformed=False):
         rng = self.rng
@@ -526,6 +594,10 @@ class Gen:
                 res = {"result-id": {"int": str(r)}, "mrs": {"str": cps(self.text() or "m")}}
                 if rng.random() < 0.5:
                     res["derivation"] = {"str": cps("(root %d)" % r + rng.choice(["", ""] + LINE_CHARS))}
+                if rng.random() < 0.25:
+                    res["tree"] = {"str": cps("(S)")}      # a result key that is no field of this schema's result relation
+                if rng.random() < 0.25:
+                    res["flags"] = {"sexp": [[":ad", 1]]}  # formatted by _map_result, then dropped likewise
                 t["results"].append(res)
             if rng.random() < 0.5:
                 t["readings"] = {"int": str(nres)}
@@ -543,9 +615,18 @@ class Gen:
                     del t["run"]["run-id"]   # run id defaults to -1; a last run id of -1 writes no run rows
                 if rng.random() < 0.5:
                     t["run"]["run-comment"] = {"str": cps("c")}
+            if rng.random() < 0.25:
+                t["first"] = {"int": "7"}                  # a parse key that is no field of this schema's parse relation
             if rng.random() < 0.3:
                 t["chart"] = [{"e-id": {"int": str(e)}, "e-name": {"str": cps("np")}}
                               for e in range(rng.randrange(1, 3))]
+                if rng.random() < 0.5:
+                    t["chart"][0]["e-score"] = {"int": "1"}   # not a field of the edge relation: dropped by _add_row
+                for e in t["chart"]:
+                    if rng.random() < 0.5:
+                        e["e-daughters"] = {"sexp": rng.choice([[1, 2], [], [[3, 4], [5]], [7]])}
+                    if rng.random() < 0.3:
+                        e["e-alternates"] = {"sexp": rng.choice([[9], [], [":a", 10]])}
             out.append(t)
         return out
 
@@ -602,6 +683,7 @@ def menu_op(j, p, gen):
 
 
 N_MENU = 24
+HOLD_KINDS = ("append", "extend", "setitem", "setslice", "update", "clear", "alias")
 
 
 def base_tables(gz):
@@ -642,6 +724,8 @@ def random_history(rng, long=False):
     for n in used:
         k = rng.choice([0, 0, 1, 2, 3, 3, 4, 5, 6])
         tables[n] = {"init": gen.rows(n, k), "gz": k > 0 and rng.random() < 0.35}
+        if k == 0 and rng.random() < 0.5:
+            tables[n]["nofile"] = True
         sizes[n] = k
     nsteps = rng.randrange(12, 26) if long else rng.randrange(3, 12)
     steps = []
@@ -688,7 +772,8 @@ def random_history(rng, long=False):
         else:
             nitems = sizes.get("item", 0)
             st = {"k": "process", "b": rng.choice([0, 0, 1, 2, 3, 5, 4 * nitems + 2, 1000]),
-                  "gz": rng.random() < 0.3, "script": gen.script()}
+                  "gz": rng.random() < 0.3, "script": gen.script(), "sel": gen.selector(),
+                  "fm": rng.choice([None, "fresh", "shared", "shared"])}
         # how the row values are passed: list / tuple / Row objects, the same Row object repeated,
         # caller-side mutation of the passed lists afterwards
         if st["k"] in ("append", "extend", "setitem", "setslice"):
@@ -699,8 +784,10 @@ def random_history(rng, long=False):
                 st["rows"] = [st["rows"][0] for _ in st["rows"]]
                 st["dup"] = True
                 st["form"] = rng.choice(["row", "list"])
-        if st["k"] in ("append", "extend") and rng.random() < 0.2:
+        if st["k"] in HOLD_KINDS and rng.random() < 0.2:
             st["hold"] = True          # an iterator obtained before the operation, consumed after it
+        if st["k"] == "append" and rng.random() < 0.04:
+            st["k"] = "nosuch"         # the same call on a relation that is not in the schema
         # aliasing: rows taken from a table (same one, its twin relation) and stored again; a foreign suite
         r2 = rng.random()
         if r2 > 0.97:
@@ -753,7 +840,11 @@ def random_history(rng, long=False):
     if rng.random() < 0.5:
         steps.append(with_obs({"k": "commit"}, gen, 4))
         steps.append(with_obs({"k": "reopen"}, gen, 4))
-    return {"kind": "long" if long else "random", "tables": tables, "steps": steps}
+    case = {"kind": "long" if long else "random", "tables": tables, "steps": steps}
+    mk = rng.choice([None] * 7 + ["schema_dict", "schema_path", "virtual"])
+    if mk:
+        case["mk"] = mk        # the profile is created by TestSuite.__init__ itself
+    return case
 
 
 def process_case(rng):
@@ -778,6 +869,9 @@ def process_case(rng):
         if rng.random() < 0.4:
             k = rng.choice([1, 2, 3])
             tables[n] = {"init": gen.rows(n, k), "gz": rng.random() < 0.3}
+    for n in ("parse", "result", "run", "edge", "memo"):
+        if n not in tables and rng.random() < 0.3:
+            tables[n] = {"init": [], "gz": False, "nofile": True}
     script = gen.script(malformed=rng.random() < 0.08)
     total = sum(2 + len(s.get("results", [])) + len(s.get("chart", [])) for s in script) * max(1, nitems)
     b = rng.choice([0, 1, 2, 3, max(0, total - 1), total, total + 1, total + 2, 1000])
@@ -787,12 +881,15 @@ def process_case(rng):
         steps.append(with_obs({"k": "append", "t": t, "row": gen.row(t)}, gen))
     if rng.random() < 0.2:
         steps.append(with_obs({"k": "setitem", "t": "item", "i": 0, "row": gen.row("item")}, gen))
-    steps.append(with_obs({"k": "process", "b": b, "gz": rng.random() < 0.3, "script": script}, gen))
+    steps.append(with_obs({"k": "process", "b": b, "gz": rng.random() < 0.3, "script": script,
+                           "sel": gen.selector() if rng.random() < 0.5 else None, "nogz": rng.random() < 0.5}, gen))
     steps.append(with_obs({"k": "commit"}, gen))
     steps.append(with_obs({"k": "reopen"}, gen))
     if rng.random() < 0.4:
+        fm = rng.choice([None, "shared", "shared"])
+        steps[-3]["fm"] = fm
         steps.append(with_obs({"k": "process", "b": rng.choice([0, 1, 1000]), "gz": rng.random() < 0.3,
-                               "script": gen.script()}, gen))
+                               "script": gen.script(), "fm": fm}, gen))
         steps.append(with_obs({"k": "commit"}, gen))
     return {"kind": "process", "tables": tables, "steps": steps}
 
@@ -975,6 +1072,8 @@ def trim_obs(case):
         if st["k"] == "process":
             used.update(AFFECTED)
             used.add("item")
+            if st.get("sel") and st["sel"][0] in TINDEX:
+                used.add(st["sel"][0])
     used.update(TWINS[n] for n in list(used) if n in TWINS)
     for st in case["steps"]:
         if "t" not in st or st["k"] == "fcommit":
@@ -1040,6 +1139,89 @@ def lifetime_cases():
                "steps": [with_obs(json.loads(json.dumps(st)), gen, 4) for st in steps]}
 
 
+def plumbing_cases():
+    """deterministic block (round 6): (a) process() with every selector variant — default, the default spelled
+    out, another column, another relation (no i-id among its keys), a relation processing clears, unknown
+    relation, unknown column, a column of another relation — each on a profile with PENDING rows in item, note and
+    parse, followed by commit/reopen: a rejected selector must leave every table (pending rows included) as it was;
+    (b) an iterator held across every kind of table operation; (c) the select wrappers (TestSuite.select_from with
+    tuple / list / None, cast=False through both paths) after every step; (d) a relation that is not in the schema"""
+    gen = Gen(__import__("random").Random(66))
+    S = lambda x: {"str": cps(x)}
+    I = lambda n: {"int": str(n)}
+    it = lambda i, x: [I(i), S(x), {"date": [2024, 2, 29, 0, 0, 0]} if i % 2 else None]
+    nt = lambda i, x: [I(i), S(x)]
+    item3 = [it(3, "s3"), it(1, "s1"), it(2, "s2")]
+    note2 = [nt(1, "n1"), nt(2, "n 2")]
+    script = [{"results": [{"result-id": I(0), "mrs": S("m"), "flags": {"sexp": [[":ad", 1]]}, "tree": S("(S)")}],
+               "total": I(3), "first": I(7),
+               "chart": [{"e-id": I(1), "e-name": S("np"), "e-daughters": {"sexp": [1, 2]}, "e-alternates": {"sexp": []}},
+                         {"e-id": I(2), "e-name": S("vp"), "e-score": I(1), "e-daughters": {"sexp": []},
+                          "e-alternates": {"sexp": [[3, 4], [":a"]]}}],
+               "run": {"run-id": I(1), "platform": S("p"), "end": {"date": [2018, 6, 6, 12, 20, 49]}}},
+              {"results": [], "error": S("no parse")}]
+    wrappers = lambda name: [{"t": name, "q": "selfrom", "cols": []},
+                             {"t": name, "q": "selfrom", "cols": [FIELDS[name][-1][0]]},
+                             {"t": name, "q": "selfrom", "cols": [FIELDS[name][1][0], FIELDS[name][0][0]]},
+                             {"t": name, "q": "selfrom", "cols": ["zz"]},
+                             {"t": name, "q": "selraw", "cols": [f for f, _ in FIELDS[name]]},
+                             {"t": name, "q": "selraw", "cols": [FIELDS[name][-1][0], FIELDS[name][0][0], FIELDS[name][-1][0]]},
+                             {"t": name, "q": "selraw", "cols": [FIELDS[name][0][0], "zz"]}]
+    sels = [None, ["item", "i-input"], ["item", "i-date"], ["note", "n-text"], ["memo", "n-id"], ["parse", "error"],
+            ["result", "mrs"], ["nosuch", "i-input"], ["item", "n-text"], ["item", ""], ["", "i-input"]]
+    for j, sel in enumerate(sels):
+        gz = bool(j % 2)
+        steps = [{"k": "append", "t": "item", "row": it(9, "pending item")},
+                 {"k": "append", "t": "note", "row": nt(9, "pending note")},
+                 {"k": "append", "t": "parse", "row": [I(7), I(7), I(7), I(1), I(1), S("old, pending")]},
+                 {"k": "setitem", "t": "item", "i": 0, "row": it(5, "changed")},
+                 {"k": "process", "b": [0, 2, 1000, None][j % 4], "gz": gz, "script": script, "sel": sel, "nogz": True,
+                  "fm": "shared"},
+                 {"k": "commit"},
+                 # the same mapper object again (its state must have been reset by cleanup), default selector
+                 {"k": "process", "b": 1, "gz": gz, "script": script[:1], "fm": "shared"},
+                 {"k": "commit"}, {"k": "reopen"}]
+        out = [with_obs(json.loads(json.dumps(st)), gen, 4) for st in steps]
+        yield {"kind": "selector", "steps": out, "mk": [None, "schema_dict", "schema_path", "virtual"][j % 4],
+               "tables": {"item": {"init": item3, "gz": gz}, "note": {"init": note2, "gz": gz},
+                          "parse": {"init": [[I(1), I(0), I(1), I(1), I(2), None]], "gz": False},
+                          "result": {"init": [[I(1), I(0), S("old"), None]], "gz": gz},
+                          "run": {"init": [], "gz": False, "nofile": True},
+                          "memo": {"init": [], "gz": False, "nofile": bool(j % 3)}}}
+    for gz in (False, True):
+        for mixed in (False, True):
+            pre = [{"k": "extend", "t": "item", "rows": [it(7, "p7"), it(8, "p8")]}] if mixed else []
+            ops = [{"k": "setitem", "t": "item", "i": 2, "row": it(20, "x")},
+                   {"k": "setitem", "t": "item", "i": 0, "row": it(21, "first, already yielded")},
+                   {"k": "update", "t": "item", "i": -1, "data": [["i-input", S("u")]]},
+                   {"k": "setslice", "t": "item", "sl": [1, 2, None], "rows": [it(22, "a"), it(23, "b")]},
+                   {"k": "setslice", "t": "item", "sl": [0, 2, None], "rows": []},
+                   {"k": "setslice", "t": "item", "sl": [None, None, -1], "rows": None},
+                   {"k": "alias", "t": "item", "src": "item", "op": "extend", "ssl": [None, None, 2]},
+                   {"k": "alias", "t": "item", "src": "item", "op": "setitem", "si": 0, "i": -1},
+                   {"k": "append", "t": "item", "row": it(24, "z")},
+                   {"k": "extend", "t": "item", "rows": [it(25, "y"), it(26, "bad")[:1], it(27, "never")]},
+                   {"k": "nosuch", "t": "item", "row": it(28, "w")},
+                   {"k": "clear", "t": "item"},
+                   {"k": "append", "t": "item", "row": it(29, "after clear")},
+                   {"k": "commit"}, {"k": "reopen"}]
+            n = 3 + (2 if mixed else 0)
+            out = []
+            for st in pre + ops:
+                st = json.loads(json.dumps(st))
+                if st.get("rows", 0) is None:      # reverse the whole table by an extended-slice assignment
+                    st["rows"] = [it(40 + q, "r%d" % q) for q in range(n)]
+                if st["k"] in HOLD_KINDS:
+                    st["hold"] = True
+                st = with_obs(st, gen, 5)
+                if "t" in st:
+                    st["qs"] = st["qs"][:3] + wrappers("item")
+                out.append(st)
+                if st["k"] == "setslice" and st["sl"][2] is None:
+                    n += len(st["rows"]) - len(range(*slice(*st["sl"]).indices(n)))
+            yield {"kind": "plumbing", "tables": {"item": {"init": item3, "gz": gz}}, "steps": out}
+
+
 def negindex_cases():
     """t[i] = row below -len (F31, fixed by d65eea1: must be an IndexError like a list)"""
     gen = Gen(__import__("random").Random(31))
@@ -1055,7 +1237,7 @@ def negindex_cases():
 
 class C10(Check):
     pid = "C10"
-    props_modules = ["Verif.C10.Props", "Verif.C10.ComposeProps"]
+    props_modules = ["Verif.C10.Props", "Verif.C10.ComposeProps", "Verif.C10.IterProps"]
     quick_cases = 280
     search_budget = {"quick": 200, "thorough": 5000}
     thorough_cases = 3000
@@ -1070,7 +1252,14 @@ class C10(Check):
             "step len, iteration, every index -n-1..n, 4+ slices, a column selection, in_transaction, the "
             "relation file and a fresh TestSuite are observed.  Bounded-exhaustive: all histories of <=2 "
             "(quick) / all <=2 plus 3 400 sampled of length 3 (thorough) ops from a 24-op menu on 3 stored rows, plain and gzip alternating, "
-            "followed by commit, commit, reopen.  A case is non-trivial if it has a step; distinct by JSON text.")
+            "followed by commit, commit, reopen.  Round 6: a deterministic block of 15 histories per run with process(selector=) "
+            "in 11 variants (default, spelled out, other column, other relation, a relation processing clears, unknown "
+            "relation/column) over pending rows, one FieldMapper object shared by successive process() calls, relations "
+            "without a file, an iterator held across every kind of table operation, TestSuite.select_from / "
+            "select(cast=False) after every step, a relation that is not in the schema; the same dimensions at random "
+            "(selector ~1/2 of process steps, fieldmapper=None/fresh/shared, hold 20% of table operations); the last "
+            "row of every observed table is read through the whole Row interface.  "
+            "A case is non-trivial if it has a step; distinct by JSON text.")
     assumptions = [
         "abstract model (Props.lean): a relation file is the list of its rows, gzip a flag, the record codec the "
         "identity; COMPOSED model (Compose.lean, ComposeProps.lean): the files are C09's (tsdb.write, plain/"
@@ -1088,9 +1277,14 @@ class C10(Check):
         "a `foreign` step (another TestSuite takes rows of this one, edits ITS table, never commits) is a no-op in "
         "the plain-list spec and is sent to the model as `noop`; `fcommit` (the other suite commits, this one "
         "reloads / is re-opened) is modelled: reload-all, the edits, commit-all",
-        "oracle-only observations (not compared with the model): what a fresh TestSuite shows after every step, "
-        "the processor calls (datum, keys) in order, the iterator-lifetime probes, held iterators; the flag `same` "
+        "oracle-only observations (not compared with the model): several iterators alive at once (iterator-lifetime "
+        "probes), the Row interface probe (position / name / slice / equality), Row-object aliasing; since round 6 the "
+        "fresh TestSuite's view, the processor calls (datum, all keys) and iterators held across ANY table operation are "
+        "also computed by the model (Iter.lean: freshView, processCalls, heldIter) and compared; the oracle judges a held "
+        "iterator only across append/extend (rows before or after accepted), the model says exactly which; the flag `same` "
         "in the composed observation is computed by the driver (composed bookkeeping = abstract table) and expected true",
+        "select(cast=False) / select_from(cast=False): the raw column text is mapped by the harness to the cell code of "
+        "the value it stands for before it is compared with the model's projection; the oracle compares the text itself",
         "during process the real tables are observed from the callback (once per item, before its rows are "
         "added) and compared with the model's state after the same number of items",
         "after commit the compressed/plain form follows the code's rule (compressed stays compressed unless "
@@ -1215,6 +1409,7 @@ class C10(Check):
         yield from alias_cases()
         yield from negstep_cases()
         yield from lifetime_cases()
+        yield from plumbing_cases()
         if tier == "quick":
             yield from exhaustive_cases(rng, 2)
         else:
@@ -1261,6 +1456,7 @@ class C10(Check):
                  "gi": [_unwrap(guarded(lambda i=i: trow(t[i]))) for i in range(-n - 1, n + 1)],
                  "tx": bool(t._in_transaction)}
             o["IT"] = iter_probes(t, n)
+            o["RA"] = row_api(t, n)
             t.close()
             tx, gzp = os.path.exists(os.path.join(d, name)), os.path.exists(os.path.join(d, name + ".gz"))
             obs["files"][name] = [tx, gzp]
@@ -1277,6 +1473,16 @@ class C10(Check):
                 obs["Q"].append(guarded(lambda: [trow(r) for r in t[sl_of(q["sl"])]]))
             elif q["q"] == "select":
                 obs["Q"].append(guarded(lambda: [trow(r) for r in t.select(*q["cols"])]))
+            elif q["q"] == "selfrom":
+                # the TestSuite-level wrapper; `columns` as a tuple, a list, or None for "no names"
+                cols = None if not q["cols"] else (tuple(q["cols"]) if len(q["cols"]) % 2 else list(q["cols"]))
+                obs["Q"].append(guarded(lambda: [trow(r) for r in ts.select_from(q["t"], cols)]))
+            elif q["q"] == "selraw":
+                # cast=False: tuples of raw column text, through Table.select and through TestSuite.select_from
+                rawc = lambda x: cps(x) if isinstance(x, str) else {"typed": type(x).__name__}
+                a = guarded(lambda: [[rawc(x) for x in r] for r in t.select(*q["cols"], cast=False)])
+                b = guarded(lambda: [[rawc(x) for x in r] for r in ts.select_from(q["t"], q["cols"], cast=False)])
+                obs["Q"].append(a if a == b else {"err": "select/select_from differ"})
         fresh = itsdb.TestSuite(d)
         for name in step.get("ot", []):
             ft = fresh[name]
@@ -1290,15 +1496,39 @@ class C10(Check):
         d = tempfile.mkdtemp(prefix="p", dir=self.base)
         try:
             schema = make_schema()
-            tsdb.initialize_database(d, schema, files=True)
+            mk = case.get("mk")
+            keep = None
+            mkerr = None
+            if mk:
+                # TestSuite.__init__ creates the profile: schema as a dict / as the path of a relations file /
+                # a virtual (temporary-directory) suite; without a schema a new suite is an ITSDBError
+                mkerr = guarded(lambda: itsdb.TestSuite(os.path.join(d, "new-without-schema")))
+                shutil.rmtree(os.path.join(d, "new-without-schema"), ignore_errors=True)
+                if mk == "virtual":
+                    keep = itsdb.TestSuite(schema=schema)
+                    shutil.rmtree(d, ignore_errors=True)
+                    d = str(keep.path)
+                elif mk == "schema_path":
+                    aux = tempfile.mkdtemp(prefix="s", dir=self.base)
+                    tsdb.write_schema(aux, schema)
+                    keep = itsdb.TestSuite(os.path.join(d, "sub"), schema=os.path.join(aux, "relations"))
+                    d = os.path.join(d, "sub")
+                else:
+                    keep = itsdb.TestSuite(d, schema=schema)
+            else:
+                tsdb.initialize_database(d, schema, files=True)
             for name, tab in case["tables"].items():
                 rows = [[py_val(v) for v in r] for r in tab["init"]]
                 if rows:
                     tsdb.write(d, name, rows, schema[name], gzip=bool(tab.get("gz")))
+                elif tab.get("nofile") and not mk:
+                    os.remove(os.path.join(d, name))      # a profile without a file for this relation
             ts = itsdb.TestSuite(d)
             out = [self.observe(ts, d, {"ot": list(NAMES), "qs": []}, None)]
             out[0]["P"] = None
+            out[0]["mkerr"] = mkerr
             last_rows = None
+            shared_fm = None
             for st in case["steps"]:
                 k = st["k"]
                 calls = None
@@ -1343,10 +1573,22 @@ class C10(Check):
                                 f = [trow(tsdb.split(line, cur_ts.schema[name])) for line in fh]
                             ph[name] = {"it": [trow(r) for r in t], "f": f, "tx": bool(t._in_transaction)}
                         phases.append(ph)
-                    if st["b"] is None:     # default buffer size
-                        res = guarded(lambda: ts.process(cpu, gzip=st["gz"], callback=callback))
-                    else:
-                        res = guarded(lambda: ts.process(cpu, buffer_size=st["b"], gzip=st["gz"], callback=callback))
+                    kw = {"gzip": st["gz"], "callback": callback}
+                    if st["b"] is not None:     # else: default buffer size
+                        kw["buffer_size"] = st["b"]
+                    if st.get("sel"):           # else: the task's default selector
+                        kw["selector"] = tuple(st["sel"])
+                    if not st["gz"] and st.get("nogz"):
+                        del kw["gzip"]          # default gzip=False
+                    if st.get("fm") == "fresh":
+                        kw["fieldmapper"] = itsdb.FieldMapper(source=ts)
+                    elif st.get("fm") == "shared":          # ONE mapper object for every process() of the history
+                        if shared_fm is None:
+                            shared_fm = itsdb.FieldMapper()
+                        kw["fieldmapper"] = shared_fm
+                    res = guarded(lambda: ts.process(cpu, **kw))
+                    if "err" in res:
+                        shared_fm = None        # an aborted run leaves the mapper's state unspecified
                     calls = cpu.calls
                 else:
                     t = ts[st["t"]]
@@ -1368,7 +1610,7 @@ class C10(Check):
                         return [mk(r) for r in rows]
                     passed = None
                     held = None
-                    if st.get("hold") and k in ("append", "extend"):
+                    if st.get("hold") and k in HOLD_KINDS:
                         hit = iter(t)
                         held = [[trow(x) for x in itertools.islice(hit, 1)], None]
                     if k == "append":
@@ -1404,6 +1646,8 @@ class C10(Check):
                             res = guarded(lambda: t.extend(got["ok"]))
                         else:
                             res = guarded(lambda: t.__setitem__(sl_of(st["sl"]), got["ok"]))
+                    elif k == "nosuch":
+                        res = guarded(lambda: ts["no-such-relation"].append(mk(st["row"])))
                     elif k == "foreign":
                         # another TestSuite takes Row objects of this one and edits them in ITS table
                         other = itsdb.TestSuite(d)
@@ -1456,7 +1700,10 @@ class C10(Check):
         sim, cid, in_row, ids = self.interner(case)
 
         def sval(v):
-            # a value of a scripted response: '' and None coincide; defaults of integer columns are the model's job
+            # a value of a scripted response: '' and None coincide; defaults of integer columns are the model's job;
+            # an S-expression value travels as the cell of its formatted text (None when falsy)
+            if isinstance(v, dict) and "sexp" in v:
+                v = sexp_cell(v)
             return cid(ckey(norm_cell(":string", v)))
 
         def sdict(d):
@@ -1501,6 +1748,10 @@ class C10(Check):
                         m[key] = st[key]
             if k == "foreign":
                 m = {"k": "noop", "ot": m["ot"]}
+            if k == "nosuch":
+                m = {"k": "append", "t": 99, "row": in_row(name, st["row"]), "ot": m["ot"]}
+            if st.get("hold") and k in HOLD_KINDS:
+                m["hold"] = True
             if k == "fcommit":
                 subs = []
                 for sub in st["ops"]:
@@ -1519,13 +1770,14 @@ class C10(Check):
             if k == "process":
                 m["b"] = 1000 if st["b"] is None else st["b"]      # TestSuite.process default (pinned: c10Defaults)
                 m["gz"] = st["gz"]
+                m["sel"] = st.get("sel")
                 m["script"] = [{"top": sdict({key: t[key] for key in t if key not in ("results", "run", "chart")}),
                                 "results": [sdict(r) for r in t["results"]] if "results" in t else None,
                                 "run": sdict(t["run"]) if "run" in t else None,
                                 "chart": [sdict(e) for e in t.get("chart", [])]} for t in st["script"]]
             qs = []
             for q in st.get("qs", []):
-                mq = {"t": TINDEX[q["t"]], "q": q["q"]}
+                mq = {"t": TINDEX[q["t"]], "q": "slice" if q["q"] == "slice" else "select"}
                 if q["q"] == "slice":
                     mq["sl"] = q["sl"]
                 else:
@@ -1543,15 +1795,30 @@ class C10(Check):
 
         def exc(x, f):
             return {"ok": f(x["ok"])} if "ok" in x else x
+        def raw_code(name, col, text):
+            """raw column text (select(cast=False)) -> the cell code of the value it stands for"""
+            if not isinstance(text, list):
+                return UNKNOWN_CELL
+            text = uncps(text)
+            if FIELDS[name][COLIDX[name][col]][1] == ":integer":
+                try:
+                    return enc_int(int(text))
+                except ValueError:
+                    return UNKNOWN_CELL
+            if text == "":
+                return 0
+            return 4 * ids[text] + 3 if text in ids else UNKNOWN_CELL
         out = []
-        for o in impl_res:
+        for idx, o in enumerate(impl_res):
+            qs = case["steps"][idx - 1].get("qs", []) if idx > 0 else []
             T = []
             for n in NAMES:
                 if n in o["T"]:
                     t = o["T"][n]
                     T.append({"n": t["n"], "it": [row(r) for r in t["it"]],
                               "gi": [g if isinstance(g, dict) and "err" in g else {"ok": row(g)} for g in t["gi"]],
-                              "tx": t["tx"], "f": [row(r) for r in t["f"]], "gz": t["gz"]})
+                              "tx": t["tx"], "f": [row(r) for r in t["f"]], "fr": [row(r) for r in o["fresh"][n]],
+                              "gz": t["gz"]})
             P = None
             if o.get("P") is not None:
                 P = [[{"it": [row(r) for r in ph[n]["it"]], "f": [row(r) for r in ph[n]["f"]], "tx": ph[n]["tx"]}
@@ -1560,8 +1827,21 @@ class C10(Check):
             # theorems checked on the generated history); the expectation is that it always holds
             R = {"e": o["e"], "T": [{"lines": o["T"][n]["raw"], "tx": o["files"][n][0], "gzf": o["files"][n][1],
                                      "same": True} for n in NAMES if n in o["T"]]}
-            out.append({"e": o["e"], "intx": o["intx"], "T": T,
-                        "Q": [exc(q, lambda rs: [row(r) for r in rs]) for q in o["Q"]], "P": P, "R": R})
+            Q = []
+            for q, a in zip(qs, o["Q"]):
+                if q["q"] == "selraw":
+                    Q.append(exc(a, lambda rs, q=q: [[raw_code(q["t"], c, x) for c, x in zip(q["cols"], r)] for r in rs]))
+                else:
+                    Q.append(exc(a, lambda rs: [row(r) for r in rs]))
+            held = None
+            if o.get("held") is not None:
+                hfirst, hrest = o["held"]
+                held = [[row(r) for r in hfirst], [row(r) for r in hrest["ok"]]] if "ok" in hrest else hrest
+            calls = None
+            if o.get("calls") is not None and o["e"] is None:
+                calls = [[cid(ckey(norm_cell(":string", c[0]))), [[kn, cid(ckey(kv))] for kn, kv in c[1]]]
+                         for c in o["calls"]]
+            out.append({"e": o["e"], "intx": o["intx"], "T": T, "Q": Q, "P": P, "R": R, "held": held, "calls": calls})
         return out
 
     def _ids_for(self, case):
@@ -1574,6 +1854,8 @@ class C10(Check):
                 cell_code(ckey(norm_cell(fs[j][1] if j < len(fs) else ":string", v)), ids, add=True)
 
         def addv(v):
+            if isinstance(v, dict) and "sexp" in v:
+                v = sexp_cell(v)
             cell_code(ckey(norm_cell(":string", v)), ids, add=True)
         for n in NAMES:
             for r in case["tables"].get(n, {"init": []})["init"]:
@@ -1629,6 +1911,8 @@ class C10(Check):
         for n in NAMES:
             if keys(res[0]["T"][n]["it"]) != spec0.cur[n]:
                 fail(-1, "a freshly opened table does not show the stored rows", n)
+        if case.get("mk") and res[0].get("mkerr") != {"err": "ITSDBError"}:
+            fail(-1, "a new TestSuite without a schema must be an ITSDBError", res[0].get("mkerr"))
         prev_stored = spec0.stored
         prev_cur = spec0.cur
         prev_gz = {n: res[0]["T"][n]["gz"] for n in NAMES}
@@ -1684,6 +1968,19 @@ class C10(Check):
                     fail(si, "a fresh TestSuite does not show the last committed list", (n,))
                 if t["tx"] and want == stored[n] and k in ("commit", "reload", "reopen", "process", "fcommit") and o["e"] is None:
                     fail(si, "table in transaction after commit/reload/process", n)
+                ra = t.get("RA")
+                if ra is not None and want:
+                    if "err" in ra:
+                        fail(si, "a row of the table raised when read through the Row interface", (n, ra))
+                    else:
+                        a = ra["ok"]
+                        w = list(want[-1])
+                        kk = lambda vs: [ckey(v) for v in vs]
+                        if not (kk(a["it"]) == w and kk(a["idx"]) == w and kk(a["name"]) == w and kk(a["neg"]) == w[::-1]
+                                and kk(a["sl"]) == w[1:] and kk(a["rev"]) == w[::-1] and a["len"] == len(w)
+                                and a["keys"] and a["eq"] and not a["ne"] and a["cols"] and a["updtype"]
+                                and (t["tx"] or not t["raw"] or uncps(t["raw"][-1]) == uncps(a["str"]))):
+                            fail(si, "table[-1] read by position / name / slice / equality differs from the list's row", (n, a, w))
                 tx, gzp = o["files"][n]
                 if tx == gzp:
                     fail(si, "relation must exist in exactly one physical form", (n, tx, gzp))
@@ -1696,7 +1993,7 @@ class C10(Check):
             # --- an iterator obtained before an append/extend and consumed after it: the property speaks of
             # iteration "of the list at the time of iteration"; for an iteration that spans a mutation both
             # readings are accepted (the rows before, or the rows after the mutation), an exception is not
-            if o.get("held") is not None:
+            if o.get("held") is not None and k in ("append", "extend"):
                 first, rest = o["held"]
                 before, after = prev_cur[st["t"]], cur[st["t"]]
                 if keys(first) != before[:1]:
@@ -1725,13 +2022,21 @@ class C10(Check):
                     else:
                         idx = [COLIDX[name][c] for c in q["cols"]]
                         w = {"ok": [tuple(r[i] for i in idx) for r in want]}
-                    got = {"ok": keys(a["ok"])} if "ok" in a else a
+                    if q["q"] == "selraw" and "ok" in w:
+                        # cast=False: the raw column text of the same projection
+                        def text(c):
+                            v = json.loads(c)
+                            return "" if v is None else v["int"] if "int" in v else raw_text(v)
+                        w = {"ok": [tuple(text(c) for c in r) for r in w["ok"]]}
+                        got = {"ok": [tuple(uncps(x) if isinstance(x, list) else x for x in r) for r in a["ok"]]} if "ok" in a else a
+                    else:
+                        got = {"ok": keys(a["ok"])} if "ok" in a else a
                     if got != w:
-                        fail(si, "select differs from the column projection of the list", (q, got, w))
+                        fail(si, "select differs from the column projection of the list (%s)" % q["q"], (q, got, w))
             # --- processing: each item seen once, in order
             if k == "process" and o["e"] is None:
-                if [[ckey(norm_cell(":string", c[0])), ckey(c[1])] for c in o.get("calls", [])] != \
-                        [[ckey(c[0]), ckey(c[1])] for c in info["calls"]]:
+                if [[ckey(norm_cell(":string", c[0])), [[a, ckey(b)] for a, b in c[1]]] for c in o.get("calls", [])] != \
+                        [[ckey(c[0]), [[a, ckey(b)] for a, b in c[1]]] for c in info["calls"]]:
                     fail(si, "processor was not called once per item in order", (o.get("calls"), info["calls"]))
             # --- processing, item by item (seen from the callback): memory = previous rows (none for the
             # cleared relations) + rows produced so far, each once; a table without pending rows = its file
@@ -1771,10 +2076,12 @@ class C10(Check):
         def inc(k, d=1):
             c[k] = c.get(k, 0) + d
         inc("kind:" + case["kind"])
+        inc("profile_made_by:" + (case.get("mk") or "initialize_database"))
         inc("steps:%s" % min(len(case["steps"]), 30))
         for n, tab in case["tables"].items():
             inc("init_rows:%d" % len(tab["init"]))
-            inc("stored:" + ("gzip" if tab.get("gz") and tab["init"] else "plain"))
+            inc("stored:" + ("gzip" if tab.get("gz") and tab["init"] else "no_file" if tab.get("nofile") and not tab["init"]
+                             else "plain"))
         inc("tables_used:%d" % len(case["tables"]))
         sim = self.sim(case)
         for st, info, o in zip(case["steps"], sim, (res or [None])[1:]):
@@ -1790,7 +2097,17 @@ class C10(Check):
                 s = st["sl"][2]
                 inc("setslice_step:" + ("none" if s is None else "0" if s == 0 else "1" if s == 1 else
                                         "pos" if s > 0 else "neg"))
+            if st.get("hold") and st["k"] in HOLD_KINDS:
+                inc("held_iterator_across:" + st["k"])
+            for q in st.get("qs", []):
+                if q["q"] in ("selfrom", "selraw"):
+                    inc("query:" + q["q"])
             if st["k"] == "process":
+                sel = st.get("sel")
+                inc("process_selector:" + ("default" if not sel else "bad" if info.get("badsel") else
+                                           "affected_relation" if sel[0] in AFFECTED else
+                                           "explicit_default" if tuple(sel) == DEFAULT_SELECTOR else "other_relation"))
+            if st["k"] == "process" and not info.get("badsel"):
                 p = len(info["produced"] or [])
                 bsz = 1000 if st["b"] is None else st["b"]
                 if st["b"] is None:
@@ -1798,8 +2115,12 @@ class C10(Check):
                 inc("process_buffer:" + ("0" if bsz == 0 else "lt_produced" if bsz < p else
                                          "eq_produced" if bsz == p else "gt_produced"))
                 inc("process_gzip:%s" % st["gz"])
+                inc("process_fieldmapper:%s" % (st.get("fm") or "default"))
                 if info.get("aborted"):
                     inc("process_response_without_results")
+                inc("process_sexp_cells", sum(1 for t in st["script"] for e in t.get("chart", [])
+                                               for kk in ("e-daughters", "e-alternates") if kk in e)
+                    + sum(1 for t in st["script"] for r in t.get("results", []) if "flags" in r))
                 inc("process_runs_without_run_id", sum(1 for t in st["script"] if "run" in t and "run-id" not in t["run"]))
                 ids = [json.loads(r[0]).get("int") for r in (info.get("before") or {}).get("item", [])]
                 inc("process_item_ids:" + ("none" if not ids else "repeated" if len(set(ids)) < len(ids) else
